@@ -305,6 +305,7 @@ def body_bytes(c):
         return pk(8, c["first"]) + pk(4, c["count"]) + bytes([c["enc"] & 255]) + c["reserved"] + c["data"]
     if t == b"TOPO":
         out = pk(8, c["first"]) + pk(4, c["count"]) + bytes([c["entity"] & 255, c["valence"] & 255, c["venc"] & 255, c["henc"] & 255]) + pk(8, c["offset"])
+        if "frozen" in c: return out + c["frozen"]
         if c["valences"] is not None and c["venc"] in (1, 2, 4):
             out += b"".join(pk(c["venc"], v) for v in c["valences"])
         if c["henc"] in (1, 2, 4):
@@ -431,7 +432,9 @@ def field_mutations(ast, quick_rng=None, budget=None):
         for (f, w) in SUB_FIELDS.get(c["type"], []):
             for v in bset(w, (c[f],)):
                 if v == c[f]: continue
-                a = copy.deepcopy(ast); a["chunks"][ci][f] = v; out.append(("c%d%s.%s=%d" % (ci, tn, f, v), a))
+                a = copy.deepcopy(ast); a["chunks"][ci][f] = v
+                if c["type"] == b"TOPO" and f in ("henc", "venc", "valence"): a["chunks"][ci]["frozen"] = body[24:]   # the data bytes stay as they were encoded
+                out.append(("c%d%s.%s=%d" % (ci, tn, f, v), a))
         if c["type"] == b"VERT":
             for i in range(3):
                 a = copy.deepcopy(ast); r = bytearray(3); r[i] = 9; a["chunks"][ci]["reserved"] = bytes(r); out.append(("c%dVERT.reserved[%d]" % (ci, i), a))
@@ -497,7 +500,7 @@ def expect_reject(label):
         if tn == "EOF" and f == "type": return True
         if tn == "DIRP" and f == "entity": return True if int(label.split("=")[1]) > 6 else None
         return True
-    if f == "version": return True
+    if f in ("version", "compression"): return True
     if f == "flags": return True if int(label.split("=")[1]) > 1 else None
     if f == "handle": return True if label.endswith("!oor") else None
     if f == "default_size":
@@ -506,15 +509,15 @@ def expect_reject(label):
 
 def expect_reject_chunk(label, ast):
     """chunk drop / duplicate / reorder: must the result be rejected?"""
-    m = re.match(r"(drop|dup|swap|eof@)(\d+)", label)
+    m = re.match(r"(drop|dup|swap|eofswap|eof@)(\d+)", label)
     if not m: 
-        return True if label in ("eof_payload", "trailing_bytes", "trailing_16") else None
+        return True if label in ("eof_payload", "trailing_bytes", "eof_then_optional") else None
     op, i = m.group(1), int(m.group(2))
     cs = ast["chunks"]
     t = cs[i]["type"]
     if op == "drop": return True if t in (b"VERT", b"TOPO", b"EOF ", b"DIRP") and (t != b"DIRP" or any(c["type"] == b"PROP" for c in cs)) else None
     if op == "dup": return True if t in (b"VERT", b"TOPO", b"EOF ", b"DIRP") else None
-    if op == "eof@": return True
+    if op in ("eof@", "eofswap"): return True
     if op == "swap":
         a, b = t, cs[i + 1]["type"]
         if b == b"EOF ": return True
@@ -533,13 +536,14 @@ def chunk_mutations(rng, ast):
         a = copy.deepcopy(ast); del a["chunks"][i]; out.append(("drop%d" % i, serialize(a)))
         a = copy.deepcopy(ast); a["chunks"].insert(i, copy.deepcopy(a["chunks"][i])); out.append(("dup%d" % i, serialize(a)))
         if i + 1 < n:
-            a = copy.deepcopy(ast); a["chunks"][i], a["chunks"][i + 1] = a["chunks"][i + 1], a["chunks"][i]; out.append(("swap%d" % i, serialize(a)))
+            a = copy.deepcopy(ast); a["chunks"][i], a["chunks"][i + 1] = a["chunks"][i + 1], a["chunks"][i]
+            out.append((("eofswap%d" if a["chunks"][i]["type"] == b"EOF " else "swap%d") % i, serialize(a)))
     for i in range(n - 1):
         a = copy.deepcopy(ast); e = a["chunks"].pop(); a["chunks"].insert(i, e); out.append(("eof@%d" % i, serialize(a)))
     a = copy.deepcopy(ast); a["chunks"] = rng.shuffle(a["chunks"]); out.append(("shuffle", serialize(a)))
     a = copy.deepcopy(ast); a["chunks"].append({"type": b"EOF ", "version": 0, "compression": 0, "flags": 1, "body": b"\0" * 8}); out.append(("eof_payload", serialize(a)))
     out.append(("trailing_bytes", serialize(ast) + b"\0\0\0"))
-    out.append(("trailing_16", serialize(ast) + b"\0" * 16))
+    out.append(("eof_then_optional", serialize(ast) + b"\0" * 16))      # 16 zero bytes = an optional chunk of type 0 after the EOF chunk
     return [(lab, data, expect_reject_chunk(lab, ast)) for (lab, data) in out]
 
 def noise(rng, data, n):
